@@ -136,7 +136,10 @@ pub fn run_binary_case(c: &Case, info: &mut CaseInfo) -> Result<(), Failure> {
                 fail!("rejected-without-message", "`redproxy-rs -t` exited with {} and printed nothing — mutations: {}", n, what);
             }
             info.class("rejected");
-            info.nontrivial = !c.muts.is_empty();
+            if matches!(c.extra, crate::harness::c18::Extra::LbGraph(_)) {
+                info.class("lb-graph-rejected");
+            }
+            info.nontrivial = !c.muts.is_empty() || !matches!(c.extra, crate::harness::c18::Extra::None);
             return Ok(());
         }
     }
@@ -159,6 +162,9 @@ pub fn run_binary_case(c: &Case, info: &mut CaseInfo) -> Result<(), Failure> {
         }
     }
     info.class("started");
+    if matches!(c.extra, crate::harness::c18::Extra::LbGraph(_)) {
+        info.class("lb-graph-started");
+    }
     std::thread::scope(|s| {
         for l in &ls {
             s.spawn(move || traffic(l));
